@@ -8,7 +8,10 @@ CHECK = {
              "builder.go is replaced at build time by a variable; if the literal is not found the label "
              "'snapshot-threshold-rewrite-NOT-active' appears and only real-size captures reach snapshots) x service restart "
              "(builder re-created, snapshot file reloaded, index directory re-listed, with or without the known-pcap cache) or "
-             "retained builder between imports. After every import: the visible streams equal those of a one-shot import of the "
+             "retained builder between imports x (one import call in six) a well-formed capture without packets named at a generated "
+             "position of the call (it stays in the capture directory for the restarts that follow) x (one in six) an upload that "
+             "cannot be read as a capture (text, cut file header, cut packet record) at a generated position, which ends the call there "
+             "and leaves the rest to a second call, as the manager does. After every import: the visible streams equal those of a one-shot import of the "
              "same files by a fresh builder (and the exchanged ground truth once all captures are in); the map connection key -> "
              "visible id is injective (except while a missing capture leaves a >=5 min hole in a flow) and every key keeps its id; "
              "the added/updated/reset/next-id bookkeeping is consistent. Non-trivial: a flow continues in a later import and (a "
